@@ -302,12 +302,18 @@ Definition replace_ops (tmp p : path) (mode : N) (chunks : list (list N)) (perms
 
 (* -------- a decidable snapshot comparison for the harness: [real] is the observed
    filesystem (each path once); the model state must bind exactly the same paths to the
-   same nodes, inode numbers compared as a partition (same-ino iff same-ino). *)
+   same nodes, inode numbers compared as a partition (same-ino iff same-ino); a real
+   directory mtime of BUMPED (-2) matches any model mtime. *)
+(* the harness reports the mtime of a directory in which an entry was created/removed/
+   renamed during the run (observed mtime >= start of run, not set by utime afterwards) as
+   BUMPED; the model does not track this implicit update, so BUMPED matches any mtime *)
+Definition BUMPED : Z := (-2)%Z.
 Definition node_eqb_noino (a b : node) : bool :=
   match a, b with
   | File d m u g t _, File d' m' u' g' t' _ =>
       str_eqb d d' && N.eqb m m' && N.eqb u u' && N.eqb g g' && Z.eqb t t'
-  | Dir m u g t, Dir m' u' g' t' => N.eqb m m' && N.eqb u u' && N.eqb g g' && Z.eqb t t'
+  | Dir m u g t, Dir m' u' g' t' =>
+      N.eqb m m' && N.eqb u u' && N.eqb g g' && (Z.eqb t t' || Z.eqb t' BUMPED)
   | Sym tg u g t, Sym tg' u' g' t' => str_eqb tg tg' && N.eqb u u' && N.eqb g g' && Z.eqb t t'
   | Fifo m u g t, Fifo m' u' g' t' => N.eqb m m' && N.eqb u u' && N.eqb g g' && Z.eqb t t'
   | Dev m u g t r, Dev m' u' g' t' r' =>
